@@ -348,6 +348,17 @@ def resume_json(ctx, party, mode, scratch):
                 ctx.handle_closed = True
         with open(path, encoding="utf-8") as fh:
             sim2 = sut.Simulator.from_json(fh)
+    elif mode == "json_legacy_unplug":
+        # a checkpoint in the layout of acnportal 0.2.2, which the loader still accepts: unplug events carry a station id and a
+        # session id instead of a reference to the EV
+        import json as _json
+        d = _json.loads(sim.to_json())
+        for v in d["context_dict"].values():
+            if v["class"].endswith(".UnplugEvent") and "ev" in v["attributes"]:
+                evd = d["context_dict"][v["attributes"].pop("ev")]["attributes"]
+                v["attributes"]["station_id"] = evd["_station_id"]
+                v["attributes"]["session_id"] = evd["_session_id"]
+        sim2 = sut.Simulator.from_json(_json.dumps(d))
     elif mode == "json_twice":
         # checkpoint of a checkpoint: save, load, save the loaded object, load that
         sim1 = sut.Simulator.from_json(sim.to_json())
